@@ -107,6 +107,10 @@ func cmdVerify(args []string) {
 				bad++
 				st = "FAILED"
 			}
+			if tr.Unsupported == "" && len(tr.DeadCovers) > 0 {
+				st += fmt.Sprintf(" VACUOUS-PATHS%v", tr.DeadCovers)
+				bad++
+			}
 			if tr.Unsupported == "" && (tr.Cover != "sat" || !tr.CanaryRefuted) {
 				st += fmt.Sprintf(" VACUOUS(cover=%s canary=%v)", tr.Cover, tr.CanaryRefuted)
 				bad++
